@@ -325,7 +325,7 @@ func main() {
 	if *only == "" {
 		// cheap scenarios get more of the run indices (a run of rdf-c14n costs
 		// ~6 ms, one of dot ~150 ms)
-		weights := map[string]int{"rdf-c14n": 8, "dot-text": 3, "prng-state": 1, "hll-state": 2, "rdf-lean": 4}
+		weights := map[string]int{"rdf-c14n": 8, "dot-text": 3, "prng-state": 1, "hll-state": 2, "rdf-lean": 4, "rdf-graph": 2}
 		var sched []*Scenario
 		for _, s := range scs {
 			w := weights[s.Name]
